@@ -175,6 +175,15 @@ func c02GuardFacts(repo string, w *strings.Builder) error {
 	if err != nil {
 		return err
 	}
+	// the planner's recognisers of the aggregate-traversal-count shape: every condition and return, in source order
+	aggFinal, err := funcFacts(ofset, ofiles, "aggregateTraversalFinalProjection")
+	if err != nil {
+		return err
+	}
+	aggSource, err := funcFacts(ofset, ofiles, "aggregateTraversalSourceMatch")
+	if err != nil {
+		return err
+	}
 	// the helper behind the LAST conjunct of tailGuard: which tail WHERE the LIMIT may be moved below
 	transparentWhere, err := funcFacts(tfset, tfiles, "shortestPathLimitPushdownTransparentWhere")
 	if err != nil {
@@ -190,6 +199,8 @@ func c02GuardFacts(repo string, w *strings.Builder) error {
 	fmt.Fprintf(w, "def depthBounds : List String := %s\n\n", leanStrList(depth))
 	fmt.Fprintf(w, "def aliasDeclaration : List String := %s\n\n", leanStrList(aliasDecl))
 	fmt.Fprintf(w, "def transparentWhere : List String := %s\n\n", leanStrList(transparentWhere))
+	fmt.Fprintf(w, "def aggFinalProjection : List String := %s\n\n", leanStrList(aggFinal))
+	fmt.Fprintf(w, "def aggSourceMatch : List String := %s\n\n", leanStrList(aggSource))
 	w.WriteString("end Dawgs.Generated.C02Guard\n")
 	return nil
 }
